@@ -141,7 +141,7 @@ PLAN = {
         'units': ['fixed_session', 'fixed_search', 'data'],
         'technique': 'Verus: functional postcondition list == fx_list(text, raw keys, options, data) for create_dictionary_suggestion, with lemma 1 <= len <= 9',
         'claim': 'Proof that the fixed-method list is exactly: First(word) + dictionary matches, adjacent duplicates removed, wrapped in the (curled) punctuation, emoji added, sorted, cut to nine (eight + raw keys when English is on and the text differs from the keys), for all inputs.  Statement clauses at spec level (lemma_c15_list over that function): the first candidate is the composed text with curling applied (the only First-ranked item, whatever the unstable sort does with ties), non-emoji candidates are in non-decreasing rank number (10 x distance), the raw key text is last when English is on and the text differs from the keys, between one and nine candidates.',
-        'note': COMMON_TRUST + 'search_dictionary and clean_string are PROVED in unit fixed_search on the real body (fx_dict is defined as sd_list: the words of the first-letter table, in table order, that the pattern ^<cleaned key>[letters]{0,n}$ matches, each as Other(form, 10 x edit distance from the typed word), form = non-joiner before every u / uu / ri sign with traditional joining); lemma_sd_list_sound: every such candidate is a dictionary word that begins with the typed word once the ignored punctuation is removed.  Assumed there (T3): the regex crate (a cleaned key gives a pattern that compiles; a match of the anchored pattern has the key as a prefix -- stated for the pinned format string only), the edit-distance crate, Vec::extend over a Map drains it and applies the closure in order, chars().any as a same-bodied wrapper; data precondition: 10 x distance of a hit fits u8.  The bounded check fixed_api stays as an independent cross-check of these assumptions (regex-special punctuation inside the word, hasanta-final words); ordering rests on one axiom about std sort_unstable (sorted permutation w.r.t. the proved comparator key; nothing assumed about ties) + data preconditions (distance <= 25, at most nine emoji per Bengali name).',
+        'note': COMMON_TRUST + 'search_dictionary and clean_string are PROVED in unit fixed_search on the real body (fx_dict is defined as sd_list: the words of the first-letter table, in table order, that the pattern ^<cleaned key>[letters]{0,n}$ matches, each as Other(form, 10 x edit distance from the typed word), form = non-joiner before every u / uu / ri sign with traditional joining); lemma_sd_list_sound: every such candidate is a dictionary word that begins with the typed word once the ignored punctuation is removed.  Assumed there (T3): the regex crate (a cleaned key gives a pattern that compiles; a match of the anchored pattern has the key as a prefix -- stated for the pinned format string only), the edit-distance crate, Vec::extend over a Map drains it and applies the closure in order, chars().any as a same-bodied wrapper; data precondition: 10 x distance of a hit fits u8.  The bounded check fixed_api stays as an independent cross-check of these assumptions (regex-special punctuation inside the word, hasanta-final words); ordering rests on one axiom about std sort_unstable (sorted permutation w.r.t. the proved comparator key; nothing assumed about ties) + data preconditions (distance <= 25, at most 255 emoji per Bengali name; both validated on the files / crate sources on every run).  The bounded check fixed_dict types the words of dictionary.json through a generated layout (data-exhaustive in the thorough tier) against oracles that do not call the engine: the dictionary file, the edit-distance crate, the emojicon sources.  Kani k_keycode_to_char (complete over u16) backs the raw key text.',
     },
     'C16': {
         'bounded': ['ansi', 'fixed_api', 'phonetic_api', 'update_engine', 'fixed_dict'], 'ffi_native': ['ffi_life_cycles_native'],
@@ -172,7 +172,7 @@ PLAN = {
         'level': 'proof',
         'units': ['layout'],
         'technique': 'Kani harnesses on the real unsafe FFI code (complete finite proofs) + Verus NUL-freedom of key characters; Miri-executed life cycles as bounded stand-in for strings, context handles and leaks',
-        'claim': 'Kani proves on the real ffi.rs (no unwinding bound needed beyond the 11-option loop): riti_config_new returns a non-null exclusively owned handle, any two setter calls change exactly their options and the Rust getters report them, riti_config_free releases it, and freeing a null config/suggestion/context/string is a no-op; Verus+Kani prove that every key character is NUL-free ASCII.  Everything else the statement names (string read-outs equal to the Rust values and NUL-terminated, independence from later context calls and from freeing the context, no invalid access, no leak) is only checked by executing fixed FFI life cycles under Miri -- a bounded stand-in, not a proof.',
+        'claim': 'Kani proves on the real ffi.rs (no unwinding bound needed beyond the 11-option loop): riti_config_new returns a non-null exclusively owned handle, any two setter calls change exactly their options and the Rust getters report them, riti_config_free releases it, and freeing a null config/suggestion/context/string is a no-op; Verus+Kani prove that every key character is NUL-free ASCII.  Everything else the statement names (string read-outs equal to the Rust values and NUL-terminated, independence from later context calls and from freeing the context, no invalid access, no leak) is only checked by executing fixed FFI life cycles under Miri and as a native test binary (system allocator: freed addresses are reused at once; a per-thread counting allocator shows that live heap bytes do not grow from one complete life cycle to the next, which also sees memory that stays reachable from a process-wide table; a data directory with a non-UTF-8 byte inside a JSON string is either refused or yields only valid UTF-8 strings) -- bounded stand-ins, not proofs.  The static scan (unsafe only in ffi.rs, no process-wide mutable state) backs the memory-safety argument: if it fails the property is undecided.',
         'note': COMMON_TRUST + 'Kani cannot run CString::from_raw (strlen), CStr::from_ptr, file loading or HashMap::new, and its two suggestion-string harnesses do not terminate within 25 minutes here, so they are not registered; Verus raw-pointer permissions would require rewriting ffi.rs.  The Miri stand-in covers the call sequences of miri/verif_ffi_miri.rs only.',
     },
 }
